@@ -67,7 +67,7 @@ CHECKS = {
  "C19": ("E3", "stateless model checking: controlled cooperative scheduler, sync shim via go build -overlay, preemption-bounded DFS over all interleavings x scripted generator answers",
   "uu.RandomID runs on real code with its sync import rewritten to a scheduler shim and the generator replaced by a scripted, yielding source; every interleaving of 2-4 goroutines up to the preemption bound (complete for the small harnesses) is explored and checked for mutual exclusion, lost updates, duplicates, version/variant and deadlock; bit layout is checked exhaustively over single-bit draws.",
   "Statistical quality of math/rand is outside the family (assumption). A free-running -race pass is a non-deciding supplement.", "3/C19"),
- "C20": ("E2", "exhaustive enumeration of scripted marshaler behaviours x case shapes and of all case lists up to length 3 (explicit-state over list prefixes) vs independent pass/fail oracle",
+ "C20": ("E1", "bounded-exhaustive enumeration of scripted marshaler behaviours x every case shape and of every case list (operation sequence) up to length 3 vs independent pass/fail oracle",
   "Scripted types (value/pointer receivers, missing interface) x every case shape x all six helpers, and every list of up to three cases over a reduced alphabet, are executed with a recording TestingT; the helper must report a failure iff the independent oracle says some applicable case is unmet, and never let a panic escape.",
   "Don't-care zones (statement silent) listed in evidence. ErrorMatch(valid non-matching pattern) is a recorded known finding.", "3/C20"),
 }
@@ -105,8 +105,8 @@ def main():
             "add_only": True,
         },
         "engines": [
-            {"name": "E1", "path": "/verif/mc/enum.go", "serves_properties": ["C01","C02","C03","C04","C05","C06","C07","C08","C09","C10","C11","C12","C13","C14","C15","C16","C18"], "kind_free_text": ENG["E1"]},
-            {"name": "E2", "path": "/verif/mc/enum.go", "serves_properties": ["C17","C20"], "kind_free_text": ENG["E2"]},
+            {"name": "E1", "path": "/verif/mc/enum.go", "serves_properties": ["C01","C02","C03","C04","C05","C06","C07","C08","C09","C10","C11","C12","C13","C14","C15","C16","C18","C20"], "kind_free_text": ENG["E1"]},
+            {"name": "E2", "path": "/verif/mc/enum.go", "serves_properties": ["C17"], "kind_free_text": ENG["E2"]},
             {"name": "E3", "path": "/verif/mc/sched", "serves_properties": ["C19"], "kind_free_text": ENG["E3"]},
         ],
         "checks": checks,
